@@ -13,7 +13,9 @@ import (
 	"verifharness/internal/hx"
 )
 
-var universeTypeCount = len(universeCtors)
+// the types the random generators draw from (later types are only added on purpose by templates; keeping the number fixed
+// keeps every earlier scenario stream as it was)
+const universeTypeCount = 28
 
 // what the generator needs to know about a universe type (kept in sync with tools/gen_universe.py by gen_check below)
 type utInfo struct {
@@ -33,6 +35,11 @@ var utInfos = []utInfo{
 	{ifs: []int{0, 2}}, {ifs: []int{1}, qual: true}, {ifs: []int{0}, pp: true},
 	{ifs: []int{1}, pp: true}, {ifs: []int{2}, pp: true}, {ifs: []int{3}, pp: true},
 	{ifs: []int{0}}, {ifs: []int{0}, prim: true}, // 26, 27: the function-local twins (same package path and type name)
+	{ifs: []int{0}, pp: true}, // 28: user post-processor with the Priority marker only
+	{ifs: []int{1}},           // 29: the third twin (Ifc1 only)
+	{ifs: []int{0}},           // 30: the holder with a second P0 / X1 pair in an embedded struct
+	{ifs: []int{0, 2}, runner: true}, // 31: the fourth twin (an application runner)
+	{ifs: []int{0}},                  // 32: the holder with real `func:"…"` struct tags (FQ, FS)
 }
 
 var namePool = []string{"a", "b", "c", "d", "e", "f", "ga", "gz", "h", "k", "la", "lz", "m", "n", "p", "q", "s", "t", "u", "w", "x", "y", "za", "zz"}
@@ -1109,6 +1116,212 @@ func graphCorpus(w *hx.Writer) {
 			emitGraph(genRetryCycle(r.Fork(), i%6), []string{"corpus", "retrycycle"}, w)
 		}
 	}
+	graphCorpus7(r, w, 12, "corpus")
+}
+
+// ---- seventh round
+
+// a user post-processor that carries the Priority MARKER but has no Order(): it is not Ordered, so it belongs to the
+// unordered processors (created in the boot phase after every ordered one, fully wired and configured)
+func genMarkerOnly(r *hx.Rng) *gScen {
+	g := newBuilder(r)
+	np := 2 + r.Intn(3)
+	for i := 0; i < np; i++ {
+		g.addNode(g.randType(func(u utInfo) bool { return len(u.ifs) > 0 && !u.pp && !u.lazy }), r.P(1, 2))
+	}
+	p := g.addNode(28, r.P(1, 2))
+	g.sc.nodes[p].slots["X0"] = "w" + []string{"", ",required=false"}[r.Intn(2)]
+	if r.P(1, 2) {
+		g.sc.nodes[p].slots["S0"] = "w"
+	}
+	if r.P(1, 2) {
+		g.sc.nodes[p].slots["A0"] = "w" + g.nameOf(r.Intn(np))
+	}
+	g.sc.nodes[p].cfg = []int{0, 1, 8, 9}[r.Intn(4)]
+	switch r.Intn(4) {
+	case 0:
+		g.addNode(14, r.P(1, 2)) // next to a priority-ORDERED one
+	case 1:
+		g.addNode(22, r.P(1, 2)) // next to an ordered one
+	case 2:
+		g.addNode(18, r.P(1, 2)) // next to a plain one
+	}
+	h := g.addNode(g.randType(func(u utInfo) bool { return !u.pp }), r.P(1, 2))
+	g.randomSlots(h, 1+r.Intn(3))
+	return g.sc
+}
+
+// a holder with TWO injection points of the same Go field name (one in an embedded struct next to Base) and the same tag
+func genSameName(r *hx.Rng) *gScen {
+	g := newBuilder(r)
+	t0 := g.addNode(0, r.P(1, 2))
+	g.addNode([]int{1, 2, 4, 17}[r.Intn(4)], r.P(1, 2))
+	if r.P(1, 2) {
+		g.addNode([]int{1, 2}[r.Intn(2)], false)
+	}
+	h := g.addNode(30, r.P(1, 2))
+	switch r.Intn(4) {
+	case 0:
+		g.sc.nodes[h].slots["P0"] = "w"
+	case 1:
+		g.sc.nodes[h].slots["P0"] = "w" + g.nameOf(t0)
+	case 2:
+		g.sc.nodes[h].slots["P0"] = "w,required=false"
+	default:
+		g.sc.nodes[h].slots["P0"] = "w"
+		g.sc.nodes[h].slots["X1"] = "w" + []string{"", ",required=false", ",qualifier=a"}[r.Intn(3)]
+	}
+	if r.P(1, 3) {
+		g.sc.nodes[h].slots["X1"] = "w" + g.nameOf(1)
+	}
+	if r.P(1, 3) { // a cycle back through the holder
+		g.edgeByName(t0, h, false)
+	}
+	if r.P(1, 3) {
+		g.sc.nodes[t0].early, g.sc.nodes[t0].after = 1, 1
+	}
+	return g.sc
+}
+
+// func-tagged points WITH a qualifier (the interface-typed slot X3: T10, T11, T12 implement Ifc3 and have F1 / F0): two T11
+// with different qualifier values and an unqualified T10 are candidates of the method; the qualifier picks one
+func genFuncQualified(r *hx.Rng) *gScen {
+	g := newBuilder(r)
+	a := g.addNode(11, r.P(1, 2)) // F1, F2, Qualifier()
+	b := g.addNode(11, false)
+	g.sc.nodes[a].q, g.sc.nodes[b].q = "a", "b"
+	if r.P(2, 3) {
+		g.addNode(10, r.P(1, 2)) // F0, F1, no qualifier
+	}
+	if r.P(1, 3) {
+		g.addNode(12, r.P(1, 2)) // F0 only, lazy
+	}
+	nh := 1 + r.Intn(2)
+	for j := 0; j < nh; j++ {
+		h := g.addNode(g.randType(func(u utInfo) bool { return !u.pp && !u.f1 && !u.f0 }), r.P(1, 3))
+		q := []string{"a", "b", "b", "c"}[r.Intn(4)]
+		fn := []string{"F1", "F1", "F2", "F1,returns=*"}[r.Intn(4)]
+		g.sc.nodes[h].slots["X3"] = "f" + fn + ",qualifier=" + q + []string{"", "", ",required=false"}[r.Intn(3)]
+	}
+	if r.P(2, 3) {
+		g.addNode(32, r.P(1, 2)) // its two points are declared with struct tags
+	}
+	return g.sc
+}
+
+// the three function-local types called `twin`: one implements Ifc0, one Ifc0 + Primary, one Ifc1 ONLY
+func genTwinIfaces(r *hx.Rng) *gScen {
+	g := newBuilder(r)
+	tys := [][]int{{26, 29}, {29, 26}, {26, 27, 29}, {29, 27, 26}, {29, 26, 27}, {26, 31}, {31, 26}, {31, 29, 26}, {29, 31}}[r.Intn(9)]
+	for _, t := range tys {
+		g.addNode(t, false)
+	}
+	if r.P(1, 2) {
+		g.addNode([]int{0, 1, 2}[r.Intn(3)], true)
+	}
+	nh := 1 + r.Intn(2)
+	for j := 0; j < nh; j++ {
+		h := g.addNode(g.randType(func(u utInfo) bool { return !u.pp }), r.P(1, 2))
+		g.sc.nodes[h].slots["S0"] = "w"
+		g.sc.nodes[h].slots["S1"] = "w"
+		if r.P(1, 2) {
+			g.sc.nodes[h].slots["X1"] = "w" + []string{"", ",required=false"}[r.Intn(2)]
+		}
+		if r.P(1, 3) {
+			g.sc.nodes[h].slots["X0"] = "w"
+		}
+	}
+	return g.sc
+}
+
+// history 2: a lazy holder with qualifier-narrowed points is looked up AFTER another application (same names, the
+// qualifier values handed round) has started in the same process
+func genLateQualified(r *hx.Rng) *gScen {
+	g := newBuilder(r)
+	a := g.addNode(4, false)
+	b := g.addNode(4, false)
+	g.sc.nodes[a].q, g.sc.nodes[b].q = "a", "b"
+	if r.P(1, 2) {
+		c := g.addNode(17, r.P(1, 2))
+		g.sc.nodes[c].q = []string{"c", "a", "b"}[r.Intn(3)]
+	}
+	if r.P(1, 3) {
+		g.addNode(1, true)
+	}
+	h := g.addNode([]int{5, 7, 12}[r.Intn(3)], r.P(1, 2))
+	g.sc.nodes[h].flt = fltLookup
+	q := []string{"a", "b"}[r.Intn(2)]
+	switch r.Intn(3) {
+	case 0:
+		g.sc.nodes[h].slots["X1"] = "w,qualifier=" + q
+	case 1:
+		g.sc.nodes[h].slots["S1"] = "w,qualifier=" + q
+	default:
+		g.sc.nodes[h].slots["X0"] = "w,qualifier=" + q
+		g.sc.nodes[h].slots["S0"] = "w,qualifier=" + []string{"a", "b", "a b"}[r.Intn(3)]
+	}
+	g.sc.hist = 2
+	return g.sc
+}
+
+// history 1: the same component objects are started twice (two Apps, one after the other); cycles with a member that is
+// substituted after initialization only (the start must be refused BOTH times), and ordinary graphs
+func genRerun(r *hx.Rng, k int) *gScen {
+	var sc *gScen
+	switch k % 6 {
+	case 0:
+		sc = genCycle(r, 2, 0)
+	case 1:
+		sc = genCycle(r, 3, 1)
+	case 2:
+		sc = genDiamond(r)
+	case 3:
+		sc = genMatch(r)
+	case 4:
+		sc = genSliceCycle(r)
+	default:
+		sc = genRandom(r, 5)
+	}
+	if k%6 < 2 && len(sc.nodes) > 0 && k%4 != 3 {
+		i := r.Intn(2)
+		sc.nodes[i].early, sc.nodes[i].after = 0, 2 // wrapped after initialization only, on a cycle
+	}
+	sc.hist = 1
+	return sc
+}
+
+// configuration slots: a placeholder inside a placeholder (resolvable / its outer key absent), decoy sibling keys of a
+// section bound by prefix, a time.Time bound with a validate argument
+func genConfigSlots(r *hx.Rng) *gScen {
+	g := newBuilder(r)
+	n := 1 + r.Intn(3)
+	for i := 0; i < n; i++ {
+		g.addNode(g.randType(func(u utInfo) bool { return !u.pp && !u.lazy }), r.P(1, 2))
+	}
+	codes := []int{8, 9, 10, 11, 11, 9, 12, 4, 1}
+	for i := 0; i < n; i++ {
+		if i == 0 || r.P(1, 2) {
+			g.sc.nodes[i].cfg = codes[r.Intn(len(codes))]
+		}
+	}
+	if r.P(1, 2) {
+		g.randomSlots(0, 1+r.Intn(2))
+	}
+	return g.sc
+}
+
+func graphCorpus7(r *hx.Rng, w *hx.Writer, n int, tag string) {
+	for i := 0; i < n; i++ {
+		emitGraph(genMarkerOnly(r.Fork()), []string{tag, "markeronly"}, w)
+		emitGraph(genSameName(r.Fork()), []string{tag, "samename"}, w)
+		emitGraph(genFuncQualified(r.Fork()), []string{tag, "funcq"}, w)
+		emitGraph(genTwinIfaces(r.Fork()), []string{tag, "twinifaces"}, w)
+		emitGraph(genLateQualified(r.Fork()), []string{tag, "latequalified"}, w)
+		emitGraph(genRerun(r.Fork(), i), []string{tag, "rerun"}, w)
+		cs := genConfigSlots(r.Fork())
+		cs.nodes[0].cfg = []int{8, 9, 10, 11, 12, 11, 9, 4, 1, 10, 11, 12}[i%12] // every code in every sweep of twelve
+		emitGraph(cs, []string{tag, "configslots"}, w)
+	}
 }
 
 func graphGen(rng *hx.Rng, n int, tier string, w *hx.Writer) {
@@ -1216,6 +1429,10 @@ func graphGen(rng *hx.Rng, n int, tier string, w *hx.Writer) {
 				}
 			}
 		}
+	}
+	// seventh-round templates, seeded (drawn after everything else: the streams above are as they were)
+	if active() {
+		graphCorpus7(rng.Fork(), w, n/120+1, "round7")
 	}
 	_ = sort.Strings
 }
